@@ -2,6 +2,7 @@
 //! independent reference router (C13, C01, C11).
 
 mod c14;
+mod gw;
 mod refrouter;
 mod sock;
 mod topo;
@@ -1193,6 +1194,7 @@ impl Engine for NetEngine {
             "pocketscion SegmentRegistry::from_topology, endhost_list_segments (lister plan), into_path_segments / LinkSegment::to_path_segment (real per-AS keys, MAC chaining, peer entries, ECDSA signing)",
             "sciparse combinator (combine), ScionPath::try_reverse, packet encoder",
             "pocketscion ScionNetworkSim::iter + SpecRoutingLogic (StdRoutingLogic, OneHopRoutingLogic, StandardValidator), sciparse advance_ingress/egress_with_validator — one real AS step per call",
+            "C14: pocketscion NetworkSimulator::dispatch + LocalNetworkSimulation, scion-stack DefaultEchoHandler / ScmpErrorHandler / PathUnawareUdpScionSocket::recv_from (hook H8), snap-dataplane inbound_datagram_check + TunnelGateway::create_scmp_error over a real PacketBufPool (hook H11), sciparse SCMP encoders",
         ]
     }
     fn stub_components(&self, _prop: &str) -> Vec<&'static str> {
